@@ -493,7 +493,13 @@ def run(ctx):
                 ctx.ob('R10.3', '%s receives the per-call timeouts of this call' % cb_.name.split('::')[-1], okh, ctx.where(top, blk.term.line),
                        'argument from %s' % sorted({str(x[1]) for x in src if x[0] in ('upvar', 'field')}), construct='per-call-timeouts:' + cb_.name.split('::')[-1])
     ctx.count('helpers_taking_timeouts', n_hand)     # 0 when the helpers take the single durations (then the pairing rule above follows them)
-    ctx.ob('R10.3', 'exactly one apply_timeout site per timeout kind', seen_tt == {'Wait': 1, 'Create': 1, 'Recycle': 1}, '', str(seen_tt), construct='apply_timeout-sites')
+    direct_timer = any(blk.term.kind == 'call' and not blk.cleanup and 'deadpool_runtime::Runtime::timeout' in blk.term.callee_names() for blk in top.blocks)
+    if seen_tt == {'Create': 1, 'Recycle': 1} and direct_timer:
+        # the slot wait is written out in the getter (its own `runtime.timeout(wait, acquire())`) instead of going through the
+        # wrapper: the wait row of the table is then not the wrapper's - not followed (R10.1 says the same), no alarm
+        ctx.undecide('R10.3', 'the slot wait sets its timer in the getter itself, not through the timeout wrapper: the Wait row is not decided')
+    else:
+        ctx.ob('R10.3', 'exactly one apply_timeout site per timeout kind', seen_tt == {'Wait': 1, 'Create': 1, 'Recycle': 1}, '', str(seen_tt), construct='apply_timeout-sites')
 
     # ---- R10.6 error discipline ------------------------------------------------------------------------------------
     COLLAPSE = {'std::result::Result::is_err', 'std::result::Result::is_ok', 'std::result::Result::ok', 'std::result::Result::err', 'std::result::Result::unwrap_or',
